@@ -1017,6 +1017,10 @@ class CallMixin:
             return obj
         init = ci.find_method("__init__", self.repo)
         obj = VRec(ty, {})
+        if init is not None and api.REGISTRY.get(init.key) is None and not args and not kwargs \
+                and all(isinstance(st, ast.Pass) or (isinstance(st, ast.Expr) and isinstance(st.value, ast.Constant))
+                        for st in init.node.body):
+            return obj  # a constructor whose body is empty (`pass` / docstring): no effect, no contract needed
         if init is not None:
             self.call_vfunc(VFunc(init, bound_self=obj), args, kwargs, fr, lineno)
         return obj
